@@ -18,7 +18,8 @@ TECHNIQUE = "bounded symbolic execution (symx + z3) of the real HTML-to-AST clas
 LEVEL_TEXT = ("For every sequence of up to K HTMLParser events (start/end/startend tags over a small name set incl. void elements, data, comment, declaration, processing instruction, "
               "character and entity references) with symbolic attribute values and data, z3 shows on every path that the handlers never raise, the stack never empties, every element is "
               "reached exactly once by walk() with the right parent, that for well-formed sequences str(root) equals the reference serialisation of the events character by character, "
-              "that strip()/deepcopy() leave the original untouched, and that find() returns exactly the matching elements in document order.")
+              "that strip()/deepcopy() leave the original untouched, and that find() returns exactly the matching elements in document order for every include_self/recurse combination and for class tokens "
+              "separated by any ASCII white space; the real html.parser on text templates incl. marked sections.")
 LEVEL_NOTE = ("The event family assumes html.parser's documented contract (handlers called in document order with lower-cased non-empty names; attribute values None or str). "
               "Degenerate in the event-kind dimension (case split), symbolic in attribute values/data/names' characters. The text family runs the real html.parser/_markupbase source "
               "through symx's regex engine (validated against re each run) for totality and round trip on templates.")
